@@ -39,6 +39,16 @@ MODULES = [
 ]
 
 
+def _copy(v):
+    """Deep copy where possible (a table of dicts is restored down to its
+    inner dicts), shallow otherwise."""
+    import copy
+    try:
+        return copy.deepcopy(v)
+    except Exception:
+        return type(v)(v)
+
+
 def preload():
     import importlib
     for m in MODULES:
@@ -72,7 +82,7 @@ def snapshot():
             if k.startswith('__'):
                 continue
             if isinstance(v, CONTAINERS):
-                _saved.append((h, k, v, type(v)(v)))
+                _saved.append((h, k, v, _copy(v)))
             elif isinstance(v, SCALARS):
                 _saved.append((h, k, None, v))
             else:
@@ -89,7 +99,7 @@ def snapshot():
                             (f.__kwdefaults__ or {}).values())
                         for d in ds:
                             if isinstance(d, CONTAINERS):
-                                _defaults.append((d, type(d)(d)))
+                                _defaults.append((d, _copy(d)))
 
 
 _holder_list = []
@@ -108,11 +118,12 @@ def restore():
                 if d.get(k) is not obj:
                     setattr(h, k, obj)
                 if obj != val:
+                    fresh = _copy(val)
                     if isinstance(obj, list):
-                        obj[:] = val
+                        obj[:] = fresh
                     else:
                         obj.clear()
-                        obj.update(val)
+                        obj.update(fresh)
             else:
                 cur = d.get(k, _MISSING)
                 if cur is not val and cur != val:
@@ -126,11 +137,12 @@ def restore():
             pass
     for obj, val in _defaults:
         if obj != val:
+            fresh = _copy(val)
             if isinstance(obj, list):
-                obj[:] = val
+                obj[:] = fresh
             else:
                 obj.clear()
-                obj.update(val)
+                obj.update(fresh)
     # state added at run time under new names (a cache created lazily)
     for h in _holder_list:
         d = vars(h)
